@@ -158,7 +158,11 @@ pub fn replay(args: &[String]) {
         // 3. paths outside every root, or not expressible as an id: no event, the handler survives
         rep.checks += 1;
         let (tx, rx) = w::test_channel();
-        for bad in [other.join("x.y"), root.join("dotted.name.x"), root.join("a").join("..").join("..").join("escape.x")] {
+        let non_utf8 = {
+            use std::os::unix::ffi::OsStrExt;
+            root.join(std::ffi::OsStr::from_bytes(b"notes.\xFF"))
+        };
+        for bad in [other.join("x.y"), root.join("dotted.name.x"), root.join("a").join("..").join("..").join("escape.x"), non_utf8] {
             let ev = notify::Event { kind: event_kind("modify", false), paths: vec![bad], attrs: Default::default() };
             w::handle_event(vec![root.clone()], tx.clone(), ev);
         }
